@@ -14,7 +14,7 @@ CHECKS = [
              "Coq evaluates the checker whose soundness is proved once: on EVERY control-flow path of every function (any number of loop "
              "iterations, early returns, through calls) no lock is released unheld, every guarded field is touched only under its mutex "
              "(writes under the write lock), every function returns holding exactly what it held on entry, and all acquisitions respect one "
-             "strict ranking of the locks, which excludes wait-for cycles. Teardown: Model/Teardown.v interleaves any number of AddPermission / "
+             "strict ranking of the locks, which excludes wait-for cycles. Which unexported helpers must be entered with a lock held is inferred by the translator and imposed as an obligation on every call site (only the exported Allocation.Close is declared in guards.txt). Teardown: Model/Teardown.v interleaves any number of AddPermission / "
              "AddChannelBind / Close calls and timer expiries at atomic-step granularity; for every step order accepted by orders_ok and EVERY "
              "schedule nothing stops or resets a nil timer and every published entry has its timer; the step orders are extracted from the "
              "source each run and the model is compared with the real Manager/Allocation on forced schedules (threads parked inside the "
@@ -137,7 +137,7 @@ CHECKS = [
      "technique": "Coq proof (inductive invariants / step characterisation over all histories) + differential correspondence of Model/Relay.v against the real turn.Server under virtual time, property predicate evaluated on the observed traces"},
     {"property_id": "C08",
      "text": 'Coq theorems: bijection and range as an invariant of every reachable state, emitted numbers in range, conflicts rejected with no change, same binding refreshes, out-of-range rejected for all numbers; chk_C08 on real traces.'
-             + ' History level: chk_C08 is proved to hold on every trace of the model.',
+             + ' History level: chk_C08 - including "repeating an existing binding refreshes it": a binding exists exactly until one channel timeout after the last successful ChannelBind for it (the channel half of chk_C07) - is proved to hold on every trace of the model with positive timeouts.',
      "note": RELAY_NOTE,
      "technique": "Coq proof (inductive invariants / step characterisation over all histories) + differential correspondence of Model/Relay.v against the real turn.Server under virtual time, property predicate evaluated on the observed traces"},
     {"property_id": "C15",
